@@ -1,5 +1,5 @@
 """C03 — coordinates dropped by slicing survive as global coordinates."""
-import random
+import random, re
 import numpy as np
 import astropy.units as u
 
@@ -27,7 +27,7 @@ def corpus():
 
 
 def generate(rng, tier):
-    n = 400 if tier == "quick" else 6000
+    n = 400 if tier == "quick" else 30000
     for k in range(n):
         nd = rng.choice([1, 2, 2, 3, 3, 4])
         shape = [rng.randint(2, 5) for _ in range(nd)]
@@ -313,7 +313,7 @@ def signature(case, failure):
     kinds = [e["kind"] for e in case["ecs"]]
     kinds = ["quantity2" if k == "quantity3" else k for k in kinds]
     if ("quantity2" in kinds and kinds.count("quantity") + kinds.count("quantity2") >= 2 and "dropped ec coordinate" in failure
-            and ("'qa" in failure or "'qb" in failure)):
+            and re.search(r"'q[abc]?\d", failure)):
         return "quantity2-beside-quantity-table:object-key-collision"
     if kinds == ["wcs"] and "dropped ec coordinate" in failure:
         return "wcs-backed-extra-coords-all-axes-dropped:vanish"
